@@ -287,6 +287,10 @@ def replay(p):
                     v[rf] = 1j * W * d[rf]
                     a[rf] = -W * W * d[rf]
             for nm, got, ref in (("d", sol.d[:, jj], d), ("v", sol.v[:, jj], v), ("a", sol.a[:, jj], a)):
+                if not np.all(np.isfinite(got)):
+                    worst = (np.inf, "%s.fsolve(incrb=%r, rf_disp_only=%s): %s at %g Hz is not finite: %s (dynamic-stiffness solution %s)" % (
+                        sname, incrb, rfdo, nm, freqs[c], got.tolist(), np.round(ref, 12).tolist()))
+                    continue
                 err = abs(got - ref).max()
                 rel = err / max(abs(ref).max(), 1e-300) if abs(ref).max() > 0 else (np.inf if err > 0 else 0)
                 if rel > 1e-8 and (worst is None or rel > worst[0]):
